@@ -390,3 +390,71 @@ func VerifC13TemplateTokens() {
 	v.Assert("C13.templateTokens.kept", strings.Contains(unit.Code, token))
 	v.Assert("C13.templateTokens.compiles", v.RegoCompiles(unit.Code))
 }
+
+// refSprintfN is fmt.Sprintf(f, args...) for %% and %v only.
+func refSprintfN(f string, args []string) (string, bool) {
+	out := ""
+	k := 0
+	for i := 0; i < len(f); i++ {
+		if f[i] != '%' {
+			out += f[i : i+1]
+			continue
+		}
+		if i+1 >= len(f) {
+			return "", false
+		}
+		switch f[i+1] {
+		case '%':
+			out += "%"
+		case 'v':
+			if k >= len(args) {
+				return "", false
+			}
+			out += args[k]
+			k++
+		default:
+			return "", false
+		}
+		i++
+	}
+	return out, k == len(args)
+}
+
+// VerifC13MessageTwoVars: two placeholders (the same property twice, or two properties): one %v
+// and one looked-up value per placeholder occurrence, in order.
+func VerifC13MessageTwoVars() {
+	second := v.Choice("second", 2)
+	pre, mid, post := verifAlphaText("pre", 1), verifAlphaText("mid", 1), verifAlphaText("post", 1)
+	v.Assume(!strings.Contains(pre+"|"+mid+"|"+post, "{{") && !strings.Contains(pre+"|"+mid+"|"+post, "}}"))
+	names := []string{"core.name", "apiContract.path"}
+	iris := map[string]string{"core.name": "http://a.ml/vocabularies/core#name", "apiContract.path": "http://a.ml/vocabularies/apiContract#path"}
+	want := []string{"core.name", names[second]}
+	m := profile.ParseMessageExpression(pre + "{{core.name}}" + mid + "{{ " + names[second] + " }}" + post)
+	v.Assert("C13.messageTwoVars.variables", len(m.Variables) == 2 && m.Variables[0] == want[0] && m.Variables[1] == want[1])
+	lines := wrapBranch("n", m, verifBranch(), "matches", "x", IriExpanderFrom(profile.Profile{}))
+	const prefix = `  message := sprintf(`
+	line, found := verifFindLine(lines, prefix)
+	v.Assert("C13.messageTwoVars.shape", found)
+	lit, end, ok := refAnyString(line, len(prefix))
+	v.Reach("lexed")
+	v.Assert("C13.messageTwoVars.literal-closed", ok && line[end:] == ", message_vars)")
+	if ok {
+		shown, fok := refSprintfN(lit, []string{"<A>", "<B>"})
+		v.Assert("C13.messageTwoVars.verbs-exact", fok)
+		if fok {
+			v.Assert("C13.messageTwoVars.roundtrip", shown == refShown(pre)+"<A>"+refShown(mid)+"<B>"+refShown(post))
+		}
+	}
+	varsLine, hasVars := verifFindLine(lines, "  message_vars := [")
+	v.Assert("C13.messageTwoVars.operands", hasVars && strings.HasSuffix(varsLine, "]"))
+	if hasVars {
+		ops := strings.Split(strings.TrimSuffix(strings.TrimPrefix(varsLine, "  message_vars := ["), "]"), ",")
+		v.Assert("C13.messageTwoVars.operands", len(ops) == 2)
+		for k, op := range ops {
+			if k < 2 {
+				_, def := verifFindLine(lines, "  "+strings.TrimSpace(op)+` := object.get(x, "`+iris[want[k]]+`", "null")`)
+				v.Assert("C13.messageTwoVars.operands", def)
+			}
+		}
+	}
+}
